@@ -429,6 +429,34 @@ def refused_ok(h, ctx, rec, what):
     return False
 
 
+UNWRITTEN = {"moves": ("MOVES_HISTORY", lambda f: "MOVES_HISTORY=OFF" in f or f == "minimal"),
+             "accounts_metadata": ("ACCOUNT_METADATA_HISTORY", lambda f: "ACCOUNT_METADATA_HISTORY=DISABLED" in f or f == "minimal"),
+             "transactions_metadata": ("TRANSACTION_METADATA_HISTORY", lambda f: "TRANSACTION_METADATA_HISTORY=DISABLED" in f or f == "minimal"),
+             # a column rather than a table: NULL in every move when the effective volumes are not maintained
+             "post_commit_effective_volumes": ("MOVES_HISTORY_POST_COMMIT_EFFECTIVE_VOLUMES", lambda f: "EFFECTIVE_VOLUMES=DISABLED" in f or f == "minimal")}
+
+
+def no_read_of_unwritten_tables(h, ctx, rec, what):
+    """A configuration that switches a history feature off never writes the table behind it: a read that is ANSWERED (not
+    refused) from such a table reports an empty history as if it were the ledger's. Structural, on the captured statement."""
+    import re
+    if rec.get("error") or not rec.get("sql"):
+        return
+    sql = rec["sql"][-1]
+    for table, (feature, lacks) in UNWRITTEN.items():
+        if not lacks(ctx.features):
+            continue
+        lab = f"C35:{what}-is-not-answered-from-{table}-when-{feature}-is-off@{ctx.features}"
+        st = h.stat(lab)
+        st["checked"] += 1
+        if re.search(r'[."(]' + table + r'"?\b', sql) or re.search(r"\b(from|join)\s+" + table + r"\b", sql, re.I):
+            st["sat"] += 1
+            h.violations.append({"harness": h.name, "label": lab, "kind": "assert", "model": {}, "detail": "config=" + str(rec["config"]) + " :: " + sql[:900],
+                                 "concrete_check": "reproduced", "concrete_detail": {"statement": sql, "config": rec["config"]}, "sql_replayed_on_postgres": False})
+        else:
+            st["concrete_true"] += 1
+
+
 def run(repo, tier, out, props, alone="false"):
     recs = capture_sql(repo)
     K = 3 if tier == "quick" else 4
@@ -454,6 +482,7 @@ def run(repo, tier, out, props, alone="false"):
                     c = ctx()
                     before = len(h.inconclusive)
                     ob(h, c, rec)
+                    no_read_of_unwritten_tables(h, c, rec, name)
                     # refusals for a missing feature are the documented behaviour
                     kept = []
                     for msg in h.inconclusive[before:]:
